@@ -20,8 +20,9 @@
  *   SCEN 4  S: reference(R,4) add(3); A: add_buffer_reference(S); B: add_buffer_reference(S); S drained completely
  *   SCEN 5  file segment, mmap mode: segment(file offset FOFF, length 6); A: add_file_segment(seg,1,4);
  *           B: add_file_segment(seg,0,-1); evbuffer_file_segment_free(seg)     (FOFF in {0,3,8,10}: page size 8)
- *   SCEN 6  file segment, read mode (EVBUF_FS_DISABLE_MMAP, short preads): segment(FOFF, 4); A: add(2)
- *           add_file_segment(seg,0,-1); segment_free
+ *           VP_MMAP_FAIL: mmap refuses, the segment falls back to pread (VP_SCRIPT 7..9)
+ *   SCEN 6  file segment, read mode (EVBUF_FS_DISABLE_MMAP): segment(FOFF, 4) filled by the scripted pread results
+ *           VP_SCRIPT 0..6 (full read, short reads, error, premature EOF); A: add(2) add_file_segment(seg,0,-1); segment_free
  *   SCEN 7  A: add(3); B: add(2) reference(R,4); evbuffer_add_buffer(A,B) (chains move), evbuffer_remove_buffer(A,S,4)
  * KF_EXCLUDE_PULLUP_MCAST / KF_ONLY_PULLUP_MCAST: predicate-guarded pair for evbuffer_pullup writing into a shared
  * (IMMUTABLE, MULTICAST) chain -- fix: fixes/C12-pullup-immutable-multicast.diff (grpD).
@@ -114,6 +115,17 @@ static void check_all(void)
 		if (i < v->m.len)
 			VP_ASSERT(vp_evb_byte(v->b, i) == vpb_at(&v->m, i), "C15: bytes read back differ from the referenced bytes / file range");
 	}
+	/* a chain shared through evbuffer_add_buffer_reference only ever shrinks: its data stays inside its parent's data */
+	for (k = 0; k < 3; k++) {
+		const struct evbuffer_chain *c; int j;
+		if (!V[k].b || V[k].freed) continue;
+		for (c = V[k].b->first, j = 0; c && j < VP_EVB_MAXCH; c = c->next, j++)
+			if (c->flags & EVBUFFER_MULTICAST) {
+				const struct evbuffer_chain *par = (EVBUFFER_CHAIN_EXTRA(struct evbuffer_multicast_parent, (struct evbuffer_chain *)c))->parent;
+				VP_ASSERT(c->buffer == par->buffer && (size_t)c->misalign + c->off <= (size_t)par->misalign + par->off,
+				    "C15: a chain shared by evbuffer_add_buffer_reference was extended in place (write into shared storage)");
+			}
+	}
 	VP_ASSERT(R_cleaned <= 1, "C15: reference cleanup callback ran more than once");
 	if (R_added && !R_cleaned) {
 		for (i = 0; i < RLEN; i++) VP_ASSERT(R[i] == Rghost[i], "C15: referenced user memory was modified in place");
@@ -158,6 +170,17 @@ static void final_op(struct vbuf *v, int kind, size_t n)
 		v->freed = 1;
 	}
 }
+/* scripted pread results (VP_SCRIPT, enumerated by the driver): full read, short reads, error, premature EOF */
+#ifndef VP_SCRIPT
+#define VP_SCRIPT 0
+#endif
+static const long SCRIPTS[][5] = { {1, 4}, {2, 1, 3}, {3, 2, 1, 1}, {2, 3, -1}, {2, 2, 0}, {1, -1}, {1, 0}, {1, 6}, {2, 2, 4}, {2, 5, -1} };   /* {n, r1, r2, ...} */
+static void set_script(void)
+{
+	int i;
+	vp_pread_script_n = (int)SCRIPTS[VP_SCRIPT][0];
+	for (i = 0; i < 4; i++) vp_pread_script[i] = SCRIPTS[VP_SCRIPT][i + 1];
+}
 static const size_t NS[] = { 0, 1, 2, 3, 4, 5, 7, 9, 12 };
 #define NNS 9
 
@@ -198,18 +221,47 @@ void harness_refs(void)
 #elif SCEN == 5
 	vnew(B_);
 	vp_bytes(vp_file, VP_FILE_MAX);
+#ifdef VP_MMAP_FAIL     /* mmap refuses: the segment falls back to pread (scripted) */
+	vp_mmap_mode = 1; set_script();
+#else
+	vp_mmap_mode = 0;
+#endif
 	SEG = evbuffer_file_segment_new(5, FOFF, 6, 0);
 	__CPROVER_assume(SEG != NULL);
 	seg_used = 1;
 	evbuffer_file_segment_add_cleanup_cb(SEG, seg_cleanup, NULL);
-	__CPROVER_assume(evbuffer_add_file_segment(A_->b, SEG, 1, 4) == 0); vpb_append(&A_->m, vp_file + FOFF + 1, 4);
+	{
+		int r5 = evbuffer_add_file_segment(A_->b, SEG, 1, 4);
+#ifdef VP_MMAP_FAIL
+		if (r5 != 0) {
+			/* the fallback read failed: nothing was added; (add_file_segment drops a segment reference on failure) */
+			VP_ASSERT(SCRIPTS[VP_SCRIPT][(int)SCRIPTS[VP_SCRIPT][0]] <= 0, "C15: evbuffer_add_file_segment failed although the file could be read");
+			VP_ASSERT(evbuffer_get_length(A_->b) == 0, "C15: failed evbuffer_add_file_segment changed the buffer");
+#ifdef VP_SCRIPT_FAILS
+			VP_WITNESS("C15 segment could not be read (pread error / EOF)");
+#endif
+			return;
+		}
+#else
+		__CPROVER_assume(r5 == 0);
+#endif
+	} vpb_append(&A_->m, vp_file + FOFF + 1, 4);
 	__CPROVER_assume(evbuffer_add_file_segment(B_->b, SEG, 0, -1) == 0); vpb_append(&B_->m, vp_file + FOFF, 6);
 	evbuffer_file_segment_free(SEG);
 	VP_ASSERT(seg_cleaned == 0, "C15: file segment cleanup ran while buffers still use the segment");
 #elif SCEN == 6
 	vp_bytes(vp_file, VP_FILE_MAX);
+	set_script();
 	SEG = evbuffer_file_segment_new(5, FOFF, 4, EVBUF_FS_DISABLE_MMAP | EVBUF_FS_DISABLE_SENDFILE);
-	if (SEG == NULL) { VP_WITNESS("C15 segment could not be read (pread error / EOF)"); return; }
+	if (SEG == NULL) {
+		VP_ASSERT(SCRIPTS[VP_SCRIPT][(int)SCRIPTS[VP_SCRIPT][0]] <= 0, "C15: evbuffer_file_segment_new failed although the file could be read");
+		VP_ASSERT(vp_evb_live == 1, "C15: failed evbuffer_file_segment_new leaked memory");     /* only buffer A is alive */
+#ifdef VP_SCRIPT_FAILS
+		VP_WITNESS("C15 segment could not be read (pread error / EOF)");
+#endif
+		return;
+	}
+	VP_ASSERT(SCRIPTS[VP_SCRIPT][(int)SCRIPTS[VP_SCRIPT][0]] > 0, "C15: evbuffer_file_segment_new succeeded although the file could not be read completely");
 	seg_used = 1;
 	evbuffer_file_segment_add_cleanup_cb(SEG, seg_cleanup, NULL);
 	vadd(A_, 2);
@@ -229,8 +281,8 @@ void harness_refs(void)
 #error "unknown SCEN"
 #endif
 	check_all();
-	if (SCEN == 5 || SCEN == 6)
-		VP_ASSERT(SCEN == 6 || vp_mmap_calls >= 1, "C15: mmap-mode segment was not mapped");
+	if (SCEN == 5)
+		VP_ASSERT(vp_mmap_calls >= 1, "C15: mmap-mode segment did not try to map the file");
 
 	/* ---------------- one more operation: target, kind and size solver-chosen ---------------- */
 	for (t = 0; t < 3; t++) for (kd = 0; kd < F_NKIND; kd++) for (ni = 0; ni < NNS; ni++) {
@@ -258,7 +310,9 @@ void harness_refs(void)
 #endif
 		final_op(&V[t], kd, NS[ni]);
 		check_all();
+#ifndef VP_SCRIPT_FAILS
 		VP_WITNESS("C15 further operation done, buffers compared");
+#endif
 		/* ---------------- release everything ---------------- */
 		for (k = 0; k < 3; k++)
 			if (V[k].b && !V[k].freed) { evbuffer_free(V[k].b); V[k].freed = 1; check_all(); }
@@ -270,7 +324,9 @@ void harness_refs(void)
 			VP_ASSERT(vp_close_calls == 0, "C15: descriptor closed although EVBUF_FS_CLOSE_ON_FREE was not given");
 		}
 		VP_ASSERT(vp_evb_live == 0, "C15: library objects leaked (or freed twice) after everything was released");
+#ifndef VP_SCRIPT_FAILS
 		VP_WITNESS("C15 everything released");
+#endif
 		return;
 	}
 	__CPROVER_assume(0);
